@@ -17,7 +17,7 @@ open Drv
 
 def step (line : String) : String :=
   let toks := (line.trimAscii.toString.splitOn " ").filter (· ≠ "")
-  match (stepC01 toks <|> stepExpr toks <|> stepC03 toks <|> stepC06 toks <|> stepC05 toks <|> stepC18 toks <|> stepC17 toks <|> stepC20 toks <|> stepMocSet toks <|> stepCrash toks <|> stepST toks <|> stepCodec toks <|> stepSTCodec toks <|> stepCli toks) with
+  match (stepC01 toks <|> stepExpr toks <|> stepC03 toks <|> stepC06 toks <|> stepC05 toks <|> stepC18 toks <|> stepC17 toks <|> stepC20 toks <|> stepMocSet toks <|> stepMocSetFile toks <|> stepCrash toks <|> stepST toks <|> stepCodec toks <|> stepSTCodec toks <|> stepCli toks) with
   | some out => out
   | none => "bad-op"
 
